@@ -4,6 +4,7 @@
    the body).  For every such file the regular-expression scans of the Model are exactly item-level rewrites:
      r1  removes groups   <p> blank* </p>             (nothing else)
      r2  turns groups     <td..> blank* </td>   into  <td..> &nbsp; </td>   (same for th; nothing else)
+     r0  (XHTML) rewrites each hr/br/img/link/meta/col tag on its own to end in " />" and touches nothing else
    so every tag other than a removed <p></p> pair and every text character other than an ASCII blank inside such a group stays, in
    order. *)
 From Coq Require Import List NArith Bool Arith Lia.
@@ -504,6 +505,258 @@ Proof.
   constructor; [apply TT; reflexivity|]. constructor; [apply TT; reflexivity|].
   constructor; [apply (TS [47; 112]); reflexivity|].
   constructor.
+Qed.
+
+(* ---- r0 (XHTML: self-closing of hr br img link meta col) ---------------------------------------------------------------- *)
+(* strings that end with the ">" of their tag *)
+Definition ends62 (u : str) : Prop := exists b, u = b ++ [62].
+
+Lemma ends62_tail (c : N) (u : str) : ends62 (c :: u) -> u <> [] -> ends62 u.
+Proof. intros [b Hb] Hne. destruct b as [|x b]; [injection Hb as _ ->; congruence|]. injection Hb as _ ->. exists b. reflexivity. Qed.
+
+Lemma ends62_nonempty (u : str) : ends62 u -> u <> [].
+Proof. intros [b ->]. destruct b; discriminate. Qed.
+
+(* dropping a run of blanks *)
+Lemma ws_run_app (u v : str) : ends62 u ->
+  ws_run (u ++ v) = ws_run u /\ skipn (ws_run u) (u ++ v) = skipn (ws_run u) u ++ v /\ ends62 (skipn (ws_run u) u).
+Proof.
+  unfold ws_run. induction u as [|c u IH]; intros He; [exfalso; apply (ends62_nonempty _ He); reflexivity|].
+  cbn [app span]. destruct (is_ws_ascii c) eqn:E.
+  - destruct u as [|d u'].
+    + destruct He as [b Hb]. destruct b as [|x [|y b]]; try discriminate. injection Hb as ->. discriminate.
+    + assert (He' : ends62 (d :: u')) by (apply (ends62_tail c); [assumption | discriminate]).
+      destruct (IH He') as [A [B C]].
+      destruct (span is_ws_ascii ((d :: u') ++ v)) as [a1 b1] eqn:S1. destruct (span is_ws_ascii (d :: u')) as [a2 b2] eqn:S2.
+      cbn [fst length] in *. rewrite A. repeat split; [exact B | exact C].
+  - cbn [fst length skipn]. repeat split. exact He.
+Qed.
+
+Lemma r0_tail_app (u v : str) : ends62 u -> r0_tail (u ++ v) = r0_tail u.
+Proof.
+  intros He. unfold r0_tail.
+  destruct (ws_run_app u v He) as [A [B C]]. rewrite A, B.
+  set (u1 := skipn (ws_run u) u) in *.
+  assert (Hsl : match u1 ++ v with 47 :: _ => 1%nat | _ => 0%nat end = match u1 with 47 :: _ => 1%nat | _ => 0%nat end).
+  { destruct u1 as [|c u1']; [exfalso; apply (ends62_nonempty _ C); reflexivity | reflexivity]. }
+  rewrite Hsl. set (sl := match u1 with 47 :: _ => 1%nat | _ => 0%nat end).
+  assert (Hu2 : skipn sl (u1 ++ v) = skipn sl u1 ++ v /\ ends62 (skipn sl u1)).
+  { subst sl. destruct u1 as [|c u1']; [exfalso; apply (ends62_nonempty _ C); reflexivity|].
+    destruct (N.eq_dec c 47) as [-> | Hc].
+    - cbn [skipn app]. split; [reflexivity|]. apply (ends62_tail 47); [assumption|].
+      intros ->. destruct C as [b Hb]. destruct b as [|x [|y b]]; discriminate.
+    - assert (E : match c :: u1' with 47 :: _ => 1%nat | _ => 0%nat end = 0%nat).
+      { destruct c as [|p]; [reflexivity|]. do 6 (destruct p as [p|p|]; try reflexivity). congruence. }
+      rewrite E. split; [reflexivity | assumption]. }
+  destruct Hu2 as [D F]. rewrite D.
+  destruct (ws_run_app (skipn sl u1) v F) as [A2 [B2 C2]]. rewrite A2, B2.
+  destruct (skipn (ws_run (skipn sl u1)) (skipn sl u1)) as [|c w]; [exfalso; apply (ends62_nonempty _ C2); reflexivity | reflexivity].
+Qed.
+
+Lemma r0_tail_single : r0_tail [62] = Some 1%nat.
+Proof. reflexivity. Qed.
+
+Lemma r0_tail_len (u : str) (l : nat) : r0_tail u = Some l -> (l <= length u)%nat /\ nth_error u (l - 1) = Some 62 /\ (1 <= l)%nat.
+Proof.
+  unfold r0_tail. set (w1 := ws_run u). set (u1 := skipn w1 u).
+  set (sl := match u1 with 47 :: _ => 1%nat | _ => 0%nat end). set (u2 := skipn sl u1). set (w2 := ws_run u2).
+  destruct (skipn w2 u2) as [|c tl] eqn:E; [discriminate|].
+  destruct (N.eq_dec c 62) as [-> | Hc].
+  - intros H. injection H as <-.
+    assert (X : skipn (w1 + sl + w2) u = 62 :: tl).
+    { subst u2 u1. rewrite !skipn_skipn' in E. rewrite <- E. f_equal. lia. }
+    assert (Y : (w1 + sl + w2 < length u)%nat).
+    { destruct (Nat.lt_ge_cases (w1 + sl + w2) (length u)); [assumption|]. rewrite skipn_all2 in X by assumption. discriminate. }
+    repeat split; try lia.
+    replace (w1 + sl + w2 + 1 - 1)%nat with (w1 + sl + w2)%nat by lia.
+    rewrite <- (firstn_skipn (w1 + sl + w2) u) at 1. rewrite nth_error_app2 by (rewrite firstn_length; lia).
+    rewrite firstn_length, Nat.min_l by lia. rewrite Nat.sub_diag, X. reflexivity.
+  - intros H. exfalso. destruct c as [|p]; [discriminate|]. do 6 (destruct p as [p|p|]; try discriminate). congruence.
+Qed.
+
+Lemma r0_lazy_app (b v : str) : ~ In 62 b ->
+  r0_lazy ((b ++ [62]) ++ v) = r0_lazy (b ++ [62]) /\
+  exists k l, r0_lazy (b ++ [62]) = Some (k, l) /\ (k + l)%nat = length (b ++ [62]) /\ (1 <= l)%nat.
+Proof.
+  induction b as [|c b IH]; intros Hb.
+  - cbn [app]. split.
+    + cbn [r0_lazy]. change (62 :: v) with ([62] ++ v). rewrite (r0_tail_app [62] v) by (exists []; reflexivity). reflexivity.
+    + exists 0%nat, 1%nat. repeat split; lia.
+  - assert (Hb' : ~ In 62 b) by (intros H; apply Hb; right; exact H).
+    destruct (IH Hb') as [IH1 [k [l [IH2 [IH3 IH4]]]]].
+    assert (He : ends62 ((c :: b) ++ [62])) by (exists (c :: b); reflexivity).
+    split.
+    + change (((c :: b) ++ [62]) ++ v) with (c :: (b ++ [62]) ++ v). change ((c :: b) ++ [62]) with (c :: b ++ [62]).
+      cbn [r0_lazy].
+      change (c :: (b ++ [62]) ++ v) with (((c :: b) ++ [62]) ++ v). rewrite (r0_tail_app _ v He).
+      change ((c :: b) ++ [62]) with (c :: b ++ [62]).
+      destruct (r0_tail (c :: b ++ [62])); [reflexivity|]. rewrite IH1. reflexivity.
+    + change ((c :: b) ++ [62]) with (c :: b ++ [62]) in *. cbn [r0_lazy].
+      destruct (r0_tail (c :: b ++ [62])) as [l0|] eqn:ET.
+      * exists 0%nat, l0. split; [reflexivity|].
+        destruct (r0_tail_len _ _ ET) as [A [B C]]. split; [|exact C].
+        destruct (Nat.eq_dec l0 (length (c :: b ++ [62]))) as [E | E]; [lia|].
+        exfalso. apply Hb.
+        assert (Hlt : (l0 - 1 < length (c :: b))%nat) by (cbn [length] in A, E; rewrite app_length in A, E; simpl in *; lia).
+        change (c :: b ++ [62]) with ((c :: b) ++ [62]) in B.
+        rewrite nth_error_app1 in B by exact Hlt. apply nth_error_In in B. exact B.
+      * rewrite IH2. exists (S k), l. split; [reflexivity|]. split; [cbn [length]; lia | exact IH4].
+Qed.
+
+Lemma name_prefix_app (n : str) : (forall x, In x n -> x <> 62) -> forall body v,
+  prefix_ci n ((body ++ [62]) ++ v) && at_boundary (skipn (length n) ((body ++ [62]) ++ v))
+  = prefix_ci n (body ++ [62]) && at_boundary (skipn (length n) (body ++ [62])).
+Proof.
+  induction n as [|x n IH]; intros Hn body v.
+  - cbn [prefix_ci length skipn andb]. apply at_boundary_app. destruct body; discriminate.
+  - destruct body as [|c body].
+    + cbn [app prefix_ci]. assert (E : (x =? lower 62) = false).
+      { apply N.eqb_neq. change (lower 62) with 62. apply Hn. left. reflexivity. }
+      rewrite E. reflexivity.
+    + cbn [app prefix_ci length skipn]. rewrite <- !andb_assoc. f_equal.
+      apply IH. intros y Hy. apply Hn. right. exact Hy.
+Qed.
+
+Lemma prefix_ci_len (n body : str) : (forall x, In x n -> x <> 62) -> prefix_ci n (body ++ [62]) = true -> (length n <= length body)%nat.
+Proof.
+  revert body. induction n as [|x n IH]; intros body Hn H; [simpl; lia|].
+  destruct body as [|c body].
+  - exfalso. cbn [app prefix_ci] in H. apply andb_true_iff in H. destruct H as [H _]. apply N.eqb_eq in H.
+    change (lower 62) with 62 in H. apply (Hn x); [left; reflexivity | exact H].
+  - cbn [app prefix_ci] in H. apply andb_true_iff in H. destruct H as [_ H].
+    specialize (IH body (fun y Hy => Hn y (or_intror Hy)) H). simpl. lia.
+Qed.
+
+Lemma r0_names_ok : forall n, In n r0_names -> forall x, In x n -> x <> 62.
+Proof.
+  intros n Hn x Hx. unfold r0_names in Hn. simpl in Hn.
+  repeat (destruct Hn as [<- | Hn]; [simpl in Hx; intuition (subst; discriminate)|]). destruct Hn.
+Qed.
+
+Lemma r0_name_app (names : list str) (body v : str) :
+  (forall n, In n names -> forall x, In x n -> x <> 62) ->
+  r0_name names ((body ++ [62]) ++ v) = r0_name names (body ++ [62]) /\
+  forall ln, r0_name names (body ++ [62]) = Some ln -> (ln <= length body)%nat.
+Proof.
+  induction names as [|n names IH]; intros Hn; [split; [reflexivity | discriminate]|].
+  destruct (IH (fun n' H' => Hn n' (or_intror H'))) as [IH1 IH2].
+  cbn [r0_name]. rewrite (name_prefix_app n (Hn n (or_introl eq_refl)) body v).
+  destruct (prefix_ci n (body ++ [62]) && at_boundary (skipn (length n) (body ++ [62]))) eqn:E.
+  - split; [reflexivity|]. intros ln H. injection H as <-. apply andb_true_iff in E. destruct E as [E _].
+    apply (prefix_ci_len n body (Hn n (or_introl eq_refl)) E).
+  - split; assumption.
+Qed.
+
+Lemma r0_head (c : N) (r : str) : c <> 60 -> r0_match (c :: r) = None.
+Proof.
+  intros Hc. unfold r0_match. destruct c as [|p]; [reflexivity|].
+  do 6 (destruct p as [p|p|]; try reflexivity). congruence.
+Qed.
+
+Lemma firstn_In' {A} (n : nat) (l : list A) (x : A) : In x (firstn n l) -> In x l.
+Proof. intros H. rewrite <- (firstn_skipn n l). apply in_or_app. left. exact H. Qed.
+
+Lemma r0_match_tag (m v : str) : tag_simple m ->
+  r0_match (m ++ v) = r0_match m /\
+  forall rep L, r0_match m = Some (rep, L) -> L = length m /\ tag_simple rep.
+Proof.
+  intros [body [-> [H60 H62]]].
+  change ((60 :: body ++ [62]) ++ v) with (60 :: (body ++ [62]) ++ v).
+  unfold r0_match.
+  destruct (r0_name_app r0_names body v r0_names_ok) as [N1 N2]. rewrite N1.
+  destruct (r0_name r0_names (body ++ [62])) as [ln|] eqn:EN; [|split; [reflexivity | discriminate]].
+  specialize (N2 ln eq_refl).
+  assert (S1 : skipn ln ((body ++ [62]) ++ v) = (skipn ln body ++ [62]) ++ v).
+  { rewrite <- app_assoc, skipn_app. replace (ln - length body)%nat with 0%nat by lia. cbn [skipn]. rewrite <- app_assoc. reflexivity. }
+  assert (S2 : skipn ln (body ++ [62]) = skipn ln body ++ [62]).
+  { rewrite skipn_app. replace (ln - length body)%nat with 0%nat by lia. reflexivity. }
+  rewrite S1, S2.
+  assert (Hb3 : ~ In 62 (skipn ln body)).
+  { intros H. apply H62. rewrite <- (firstn_skipn ln body). apply in_or_app. right. exact H. }
+  destruct (r0_lazy_app (skipn ln body) v Hb3) as [L1 [k [l [L2 [L3 L4]]]]]. rewrite L1, L2.
+  rewrite app_length, skipn_length in L3. simpl in L3.
+  assert (Hk : (1 + ln + k <= length (60%N :: body))%nat) by (simpl; lia).
+  assert (F1 : firstn (1 + ln + k) (60 :: (body ++ [62]) ++ v) = firstn (1 + ln + k) (60 :: body)).
+  { rewrite <- (app_assoc body [62] v).
+    change (60 :: body ++ [62] ++ v) with ((60 :: body) ++ [62] ++ v).
+    rewrite firstn_app. replace (1 + ln + k - length (60%N :: body))%nat with 0%nat by lia. cbn [firstn]. apply app_nil_r. }
+  assert (F2 : firstn (1 + ln + k) (60 :: body ++ [62]) = firstn (1 + ln + k) (60 :: body)).
+  { change (60 :: body ++ [62]) with ((60 :: body) ++ [62]).
+    rewrite firstn_app. replace (1 + ln + k - length (60%N :: body))%nat with 0%nat by lia. cbn [firstn]. apply app_nil_r. }
+  rewrite F1, F2. split; [reflexivity|].
+  intros rep L H. injection H as <- <-. split.
+  - cbn [length]. rewrite app_length. simpl. lia.
+  - exists (firstn (ln + k) body ++ [32; 47]). split.
+    + cbn [firstn plus]. cbn [app]. rewrite <- app_assoc. reflexivity.
+    + split; intros H; apply in_app_or in H; destruct H as [H | H].
+      * apply H60. eapply firstn_In'. exact H.
+      * simpl in H. intuition discriminate.
+      * apply H62. eapply firstn_In'. exact H.
+      * simpl in H. intuition discriminate.
+Qed.
+
+Definition r0_item (i : item) : item :=
+  match i with
+  | T c => T c
+  | G m => match r0_match m with Some (rep, _) => G rep | None => G m end
+  end.
+
+Theorem r0_items (l : list item) : structured l -> r0 (flat l) = flat (map r0_item l) /\ structured (map r0_item l).
+Proof.
+  unfold r0. induction l as [|i l IH]; intros Hs; [split; [reflexivity | constructor]|].
+  inversion Hs as [|? ? Hi Hsl]; subst. destruct (IH Hsl) as [IH1 IH2].
+  destruct i as [c|m].
+  - simpl in Hi. split; [|constructor; assumption].
+    rewrite flat_cons. cbn [flat_item map r0_item]. rewrite flat_cons. cbn [flat_item].
+    rewrite (scan_copy r0_match r0_head [c]); [rewrite IH1; reflexivity|]. intros [H | []]. congruence.
+  - simpl in Hi. destruct (r0_match_tag m (flat l) Hi) as [M1 M2].
+    rewrite flat_cons. cbn [flat_item map r0_item]. rewrite flat_cons.
+    destruct (r0_match m) as [[rep L]|] eqn:EM.
+    + destruct (M2 rep L eq_refl) as [HL Hrep]. cbn [flat_item]. split; [|constructor; assumption].
+      rewrite (scan_match r0_match m (flat l) rep L); [rewrite IH1; reflexivity | rewrite M1; reflexivity | symmetry; exact HL |].
+      destruct Hi as [body [-> _]]. discriminate.
+    + cbn [flat_item]. split; [|constructor; assumption].
+      destruct Hi as [body [-> [H60 H62]]].
+      change ((60 :: body ++ [62]) ++ flat l) with (60 :: (body ++ [62]) ++ flat l).
+      rewrite <- app_assoc. cbn [app].
+      rewrite (scan_nomatch_tag r0_match r0_head body (flat l) H60).
+      * rewrite IH1. change ((60 :: body ++ [62]) ++ flat (map r0_item l)) with (60 :: (body ++ [62]) ++ flat (map r0_item l)).
+        rewrite <- app_assoc. reflexivity.
+      * change (60 :: body ++ 62 :: flat l) with (60 :: body ++ [62] ++ flat l).
+        rewrite app_assoc. change (60 :: (body ++ [62]) ++ flat l) with ((60 :: body ++ [62]) ++ flat l). exact M1.
+Qed.
+
+Lemma vis_r0 (l : list item) : vis (map r0_item l) = vis l.
+Proof.
+  unfold vis. induction l as [|i l IH]; [reflexivity|]. cbn [map flat_map]. rewrite IH. f_equal.
+  destruct i as [c|m]; [reflexivity|]. cbn [r0_item]. destruct (r0_match m) as [[rep L]|]; reflexivity.
+Qed.
+
+(* XHTML.processFileContent's clean-up as a whole: tags are closed XML-style one by one, then as for HTML5 *)
+Theorem post_xhtml_items (l : list item) : structured l ->
+  exists l1 l2, r1_rel (map r0_item l) l1 /\ r2_rel l1 l2 /\ post_xhtml (flat l) = flat l2 /\ adds_nbsp (vis l) (vis l2).
+Proof.
+  intros Hs. destruct (r0_items l Hs) as [E0 Hs0].
+  destruct (r1_items _ Hs0) as [l1 [H1 E1]].
+  destruct (r2_items l1 (r1_rel_structured _ _ H1 Hs0)) as [l2 [H2 E2]].
+  exists l1, l2. repeat split; try assumption.
+  - unfold post_xhtml. rewrite E0, E1. exact E2.
+  - rewrite <- (vis_r0 l), <- (r1_rel_vis _ _ H1). apply r2_rel_vis. exact H2.
+Qed.
+
+Example ex_r0 :
+  structured [G [60; 98; 114; 62]; T 97; G [60; 105; 109; 103; 32; 97; 61; 98; 32; 62]; G [60; 98; 62]] /\
+  post_xhtml (flat [G [60; 98; 114; 62]; T 97; G [60; 105; 109; 103; 32; 97; 61; 98; 32; 62]; G [60; 98; 62]]) =
+  flat [G [60; 98; 114; 32; 47; 62]; T 97; G [60; 105; 109; 103; 32; 97; 61; 98; 32; 47; 62]; G [60; 98; 62]].
+Proof.
+  split; [|vm_compute; reflexivity].
+  assert (TS : forall body, (forallb (fun c => negb (c =? 60) && negb (c =? 62)) body = true) -> item_ok (G (60 :: body ++ [62]))).
+  { intros body Hb. exists body. split; [reflexivity|]. rewrite forallb_forall in Hb.
+    split; intros Hin; specialize (Hb _ Hin); simpl in Hb; discriminate. }
+  constructor; [apply (TS [98; 114]); reflexivity|].
+  constructor; [simpl; discriminate|].
+  constructor; [apply (TS [105; 109; 103; 32; 97; 61; 98; 32]); reflexivity|].
+  constructor; [apply (TS [98]); reflexivity|]. constructor.
 Qed.
 
 (* statements in the form used by Properties/C12.v *)
